@@ -174,14 +174,14 @@ func (el *eventloop) enroll(c net.Conn, addr net.Addr, ctx any) (resCh chan Regi
 				resCh <- RegisteredResult{Err: err}
 				return
 			}
-			gc = newStreamConn("tcp", dupFD, el, sockAddr, c.LocalAddr(), c.RemoteAddr())
+			gc = newStreamConn("tcp", dupFD, el, sockAddr, ownedAddr(c.LocalAddr()), ownedAddr(c.RemoteAddr()))
 		case *net.UDPConn:
 			sockAddr, _, _, _, err = socket.GetUDPSockAddr(c.RemoteAddr().Network(), c.RemoteAddr().String())
 			if err != nil {
 				resCh <- RegisteredResult{Err: err}
 				return
 			}
-			gc = newUDPConn(dupFD, el, c.LocalAddr(), sockAddr, true)
+			gc = newUDPConn(dupFD, el, ownedAddr(c.LocalAddr()), sockAddr, true)
 		default:
 			resCh <- RegisteredResult{Err: fmt.Errorf("unknown type of conn: %T", c)}
 			return
@@ -204,6 +204,23 @@ func (el *eventloop) enroll(c net.Conn, addr net.Addr, ctx any) (resCh chan Regi
 		resCh <- RegisteredResult{Conn: gc}
 	})
 	return
+}
+
+// ownedAddr returns addr with a zone string that nobody else refers to: the addresses of a net.Conn
+// share their zone with the interface cache of package net, whereas conn.release() hands the zone
+// bytes of a connection's addresses over to the byte pool.
+func ownedAddr(addr net.Addr) net.Addr {
+	switch a := addr.(type) {
+	case *net.TCPAddr:
+		if a != nil && a.Zone != "" {
+			return &net.TCPAddr{IP: a.IP, Port: a.Port, Zone: strings.Clone(a.Zone)}
+		}
+	case *net.UDPAddr:
+		if a != nil && a.Zone != "" {
+			return &net.UDPAddr{IP: a.IP, Port: a.Port, Zone: strings.Clone(a.Zone)}
+		}
+	}
+	return addr
 }
 
 func (el *eventloop) register(a any) error {
